@@ -498,7 +498,7 @@ int gt_is_valid(const gt_t a) {
 				if (core_get()->ep_id == B12_383) {
 					/* GT-strong, so test for cyclotomic only. */
 					r = 1;
-				} else {
+				} else if (fp12_test_cyc((void *)a)) {
 					/* Check that a^u = a^p. */
 					gt_frb(u, a, 1);
 					fp12_exp_cyc_sps((void *)v, (void *)a, b, l, bn_sign(n));
@@ -524,6 +524,11 @@ int gt_is_valid(const gt_t a) {
 			 * G2 and GT on Pairing-friendly Curves" by Dai et al.
 			 * https://eprint.iacr.org/2022/348.pdf */
 			case EP_BN:
+				/* The compressed arithmetic below is only defined in the
+				 * cyclotomic subgroup, so test for it first. */
+				if (!fp12_test_cyc((void *)a)) {
+					break;
+				}
 				/*Check that [z+1]P+[z]\psi(P)+[z]\psi^2(P)=[2z]\psi^3(P)*/
 				fp12_exp_cyc_sps((void *)u, (void *)a, b, l, bn_sign(n));
 				gt_frb(v, u, 1);
@@ -534,7 +539,6 @@ int gt_is_valid(const gt_t a) {
 				gt_frb(v, v, 1);
 				gt_sqr(v, v);
 				r = (gt_cmp(u, v) == RLC_EQ);
-				r &= fp12_test_cyc((void *)a);
 				break;
 			/* If u is even, check that [u*p^3]P = P
 			 * else check [p^5]P = [u]P. */
